@@ -301,7 +301,13 @@ def mon_C13(run):
     # mesh rule across polls
     tf = uo.get("tol_fun", 1e-3)
     accel = uo.get("accelerate_mesh", True)
-    steps = 3
+    steps = int(uo.get("accelerate_mesh_steps", 3))
+    ti, fe, sloppy = float(uo.get("tol_improvement", 1)), float(uo.get("forcing_exponent", 1.5)), uo.get("sloppy_improvement", True)
+
+    def suff_of(mesh):
+        s_ = ti * mesh ** fe
+        return max(s_, tf) if sloppy else s_
+
     det = run.mode == "det" and run.script.get("second") is None
     H = b.iteration_history["fval"] if b.iteration_history.get("fval") is not None else []
     vs = [c["val"] for c in run.calls]
@@ -314,7 +320,7 @@ def mon_C13(run):
         if det:
             ys = vs[pol["c0"]: pol["c1"]]
             f0 = pol["fval0"]
-            suff = max(pol["mesh"] ** 1.5, tf)
+            suff = suff_of(pol["mesh"])
             good = bool(ys) and (f0 - min(ys)) > suff
             fnow = min(ys) if ys and (f0 - min(ys)) > 0 else f0
             if good:
@@ -338,7 +344,7 @@ def mon_C13(run):
                 run.v("C13", "stochastic target: a polled point was judged without a posterior update (success not judged on the GP estimate)", "poll-judged-on-raw-observation", (pol.get("n_add", 0), pol["c1"] - pol["c0"]))
             elif uo.get("improvement_quantile", 0.5) == 0.5 and not uo.get("stobads") and pol.get("impr") is not None:
                 ests = [fn for fb, fn in pol["impr"]]
-                suff = max(pol["mesh"] ** 1.5, tf)
+                suff = suff_of(pol["mesh"])
                 good = bool(ests) and (pol["fval0"] - min(ests)) > suff
                 if good and k1 != min(k0 + 1, cap):
                     run.v("C13", "poll found a sufficient improvement (on the GP estimates) but the mesh was not doubled", "mesh-rule-noisy-success", (k0, k1, pol["fval0"], min(ests), suff))
